@@ -5,29 +5,28 @@ of the same version: the most recently written wins; maintenance never changes t
 Specification: `pick q log` over the write log (newest first) = greatest version ≤ the requested
 one, most recent write among equal versions (tombstones are returned as entries).
 
-HEADLINE STATEMENT (full strength, kept as the target):
-    theorem C02_getv_refines (c) (hc : c.Good) (ops : List Op) (hwf : ∀ op ∈ ops, op.wf) (q) :
-        get c (run c {} ops) q = pick q (logOf [] ops)
-  over ALL modelled ops.  What is proved below is `C02_getv_refines_partial`: the same statement
-  for every sequence of put/delete (any cf/key/version/value), rotate, flush, L0→ingest move and
-  close+reopen.  MISSING: the two ingest compactions (`keep`, `drain`) — for `keep` the
-  preservation lemma is `pick_dedup` + a suffix split of the ingest list, for `drain` it needs the
-  additional invariant that main tables have pairwise disjoint user-key ranges — and the
-  compaction kinds the model does not have at all (L0→L0, Ln→Ln+1, Lmax→Lmax, value-log GC).
+HEADLINE `C02_getv_refines`: for every configuration with the good decisions (`Cfg.AllGood`: read
+path, `OverlappingTables` right bound, version-0 hits) and EVERY sequence of the modelled
+operations — put / delete with any column family, key, version (0 included) and value, rotate,
+flush, L0→ingest move, ingest keep, ingest drain (merging with the overlapping main tables),
+close+reopen; any order, any number — `get` equals `pick` over the write log.
+The only hypothesis on the sequence is the decidable `Op.wf`: written keys are non-empty and at
+most `maxKeySize` bytes (other writes are rejected by a good configuration and never reach the
+LSM).  Proof: invariant `Inv` of NoKVModel/Lsm/Steps.lean, one preservation lemma per op
+(Steps / Compact / Compact2), induction over the op list (Refine.lean).
+Not in the model at all (hence not in the theorem): L0→L0, Ln→Ln+1, Lmax→Lmax compactions,
+value-log GC, multi-table compaction outputs, expiry.
 -/
-import NoKVModel.Lsm.Steps
+import NoKVModel.Lsm.Refine
 
 namespace NoKV.Props.C02
 open NoKV NoKV.Lsm
 
-/-- Versioned reads refine the write log for every good read-path configuration, over all
-    sequences of writes/deletes, rotations, flushes, L0→ingest moves and reopens. -/
-theorem C02_getv_refines_partial (c : Cfg) (hc : c.ReadGood) (ops : List Op)
-    (hops : ∀ op ∈ ops, op.basic = true ∧ op.wf) (q : IK) :
-    get c (run c {} ops) q = pick q (logOf [] ops) := by
-  have h := inv_run c ops {} [] inv_init hops
-  rw [get_good c hc _ q h.main h.pos]
-  exact h.same q
+/-- Versioned reads refine the write log for every good configuration over ALL sequences of the
+    modelled operations. -/
+theorem C02_getv_refines (c : Cfg) (hc : c.AllGood) (ops : List Op) (hops : ∀ op ∈ ops, op.wf) (q : IK) :
+    get c (run c {} ops) q = pick q (logOf [] ops) :=
+  get_refines c hc ops hops q
 
 theorem logOf_no_put (post : List Op) (hpost : ∀ op ∈ post, ∀ e, op ≠ .put e) :
     ∀ w : List Entry, logOf w post = w := by
@@ -41,14 +40,26 @@ theorem logOf_no_put (post : List Op) (hpost : ∀ op ∈ post, ∀ e, op ≠ .p
     simp only [logOf, List.foldl, this]
     exact ih (fun o ho => hpost o (List.mem_cons_of_mem _ ho)) w
 
+theorem pick_ver_le {q : IK} : ∀ (l : List Entry) (z : Entry), pick q l = some z → z.ver ≤ q.ver := by
+  intro l
+  induction l with
+  | nil => intro z h; simp [pick] at h
+  | cons x l ih =>
+    intro z h
+    simp only [pick] at h
+    rcases better_eq_some h with h | h
+    · obtain ⟨rfl, -, -, hv⟩ := mq_some h
+      exact hv
+    · exact ih z h
+
 /-- same-version rewrite: the most recently written entry is the answer wherever the older one
-    sits (instance of the theorem, spelled out because it is the case C02 singles out) -/
-theorem C02_same_version_rewrite (c : Cfg) (hc : c.ReadGood) (pre mid post : List Op) (e1 e2 : Entry)
+    sits and whatever maintenance ran in between or afterwards -/
+theorem C02_same_version_rewrite (c : Cfg) (hc : c.AllGood) (pre mid post : List Op) (e1 e2 : Entry)
     (hk : e1.ik = e2.ik)
-    (hops : ∀ op ∈ pre ++ [.put e1] ++ mid ++ [.put e2] ++ post, op.basic = true ∧ op.wf)
+    (hops : ∀ op ∈ pre ++ [.put e1] ++ mid ++ [.put e2] ++ post, op.wf)
     (hpost : ∀ op ∈ post, ∀ e, op ≠ .put e) :
     get c (run c {} (pre ++ [.put e1] ++ mid ++ [.put e2] ++ post)) e2.ik = some e2 := by
-  rw [C02_getv_refines_partial c hc _ hops]
+  rw [C02_getv_refines c hc _ hops]
   have hlog := logOf_no_put post hpost
   have : logOf [] (pre ++ [.put e1] ++ mid ++ [.put e2] ++ post)
       = e2 :: logOf [] (pre ++ [.put e1] ++ mid) := by
@@ -61,52 +72,34 @@ theorem C02_same_version_rewrite (c : Cfg) (hc : c.ReadGood) (pre mid post : Lis
   cases hp : pick e2.ik (logOf [] (pre ++ [.put e1] ++ mid)) with
   | none => rfl
   | some z =>
-    have hz := pick_mem hp
-    simp only [better]
-    -- any other answer has version ≤ the requested one = e2.ver
-    have : z.ver ≤ e2.ver := by
-      clear hz
-      have aux : ∀ (l : List Entry) (z : Entry), pick e2.ik l = some z → z.ver ≤ e2.ver := by
-        intro l
-        induction l with
-        | nil => intro z h; simp [pick] at h
-        | cons x l ih =>
-          intro z h
-          simp only [pick] at h
-          cases hmx : mq e2.ik x with
-          | none => rw [hmx, better_none_left] at h; exact ih z h
-          | some y =>
-            obtain ⟨hy, -, -, hv⟩ := mq_some hmx
-            subst hy
-            rw [hmx] at h
-            cases hpl : pick e2.ik l with
-            | none => rw [hpl] at h; simp [better] at h; subst h; simpa [Entry.ik] using hv
-            | some u =>
-              rw [hpl] at h
-              simp only [better] at h
-              split at h
-              · simp at h; subst h; exact ih _ hpl
-              · simp at h; subst h; simpa [Entry.ik] using hv
-      exact aux _ z hp
-    have : ¬ e2.ver < z.ver := by omega
-    simp [this]
+    have hz : z.ver ≤ e2.ver := by simpa [Entry.ik] using pick_ver_le _ z hp
+    exact better_absorb (by simp only [rk]; omega)
 
-/-! non-vacuity: a good configuration exists and the hypotheses are satisfiable by a sequence
-    that pushes one internal key through two flushes and an L0→ingest move -/
-example : Cfg.good.ReadGood := by decide
+/-! non-vacuity: a good configuration exists; the hypotheses are satisfiable by a history with
+    keep and drain in it (the second drain merges with an existing main table, the keep consumes a
+    main table, a version-0 entry goes through a flush), and the theorem's conclusion is the value
+    one expects -/
+example : Cfg.good.AllGood := by decide
 
 def demoOps : List Op :=
-  [.put ⟨0, [107], 5, [1], false⟩, .rotate, .flush, .put ⟨0, [107], 5, [2], false⟩, .rotate, .flush,
-   .l0move, .put ⟨0, [107], 3, [3], false⟩, .reopen]
+  [.put ⟨0, [107], 5, [1], false⟩, .put ⟨0, [97], 0, [8], false⟩, .rotate, .flush, .l0move, .drain,
+   .put ⟨0, [107], 5, [2], false⟩, .put ⟨0, [109], 3, [7], false⟩, .rotate, .flush, .l0move, .keep,
+   .put ⟨0, [107], 2, [3], false⟩, .rotate, .flush, .l0move, .drain, .reopen,
+   .put ⟨0, [107], 5, [], true⟩, .rotate, .flush, .l0move, .keep, .drain]
 
-example : ∀ op ∈ demoOps, op.basic = true ∧ op.wf := by
-  intro op h
-  simp only [demoOps, List.mem_cons, List.not_mem_nil, or_false] at h
-  rcases h with h | h | h | h | h | h | h | h | h <;> subst h <;>
-    simp [Op.basic, Op.wf, maxKeySize]
+example : ∀ op ∈ demoOps, op.wf := by decide
 
-example : get Cfg.good (run Cfg.good {} demoOps) ⟨0, [107], 7⟩ = some ⟨0, [107], 5, [2], false⟩ := by
+example : (run Cfg.good {} demoOps).main.length = 1 ∧ (run Cfg.good {} demoOps).ing.length = 0 := by decide
+
+example : get Cfg.good (run Cfg.good {} demoOps) ⟨0, [107], 7⟩ = some ⟨0, [107], 5, [], true⟩ := by
   decide
+
+example : get Cfg.good (run Cfg.good {} demoOps) ⟨0, [107], 4⟩ = some ⟨0, [107], 2, [3], false⟩ ∧
+    get Cfg.good (run Cfg.good {} demoOps) ⟨0, [97], 0⟩ = some ⟨0, [97], 0, [8], false⟩ := by
+  decide
+
+example : get Cfg.good (run Cfg.good {} demoOps) ⟨0, [107], 7⟩ = pick ⟨0, [107], 7⟩ (logOf [] demoOps) :=
+  C02_getv_refines Cfg.good (by decide) demoOps (by decide) _
 
 /-! ## the as-is decisions: negations on the witnesses of corpus/C02 (and corpus/C01) -/
 
@@ -118,11 +111,11 @@ def l0tieOps : List Op :=
     the older of two same-version writes is returned once both sit in L0. -/
 theorem C02_fails_asis_l0tie (c : Cfg) (hc : c.l0SearchDir = .oldestFirst ∧ c.tieRule = .lt) :
     ¬ (get c (run c {} l0tieOps) ⟨0, [107], 5⟩ = pick ⟨0, [107], 5⟩ (logOf [] l0tieOps)) := by
-  rcases c with ⟨d, t, cp, lo, io, im, mk, to, ob, pk⟩
+  rcases c with ⟨d, t, cp, lo, io, im, mk, to, ob, pk, zf⟩
   simp only at hc
   obtain ⟨rfl, rfl⟩ := hc
   cases cp <;> cases lo <;> cases io <;> cases im <;> cases mk <;> cases to <;> cases ob <;>
-    cases pk <;> decide
+    cases pk <;> cases zf <;> decide
 
 /-- corpus/C02/finding-first-hit-hides-greater-version.ops -/
 def firstHitOps : List Op :=
@@ -132,11 +125,11 @@ def firstHitOps : List Op :=
     one: a smaller version written later hides a greater version in an older source. -/
 theorem C02_fails_asis_firsthit (c : Cfg) (hc : c.crossPick = .firstHit) :
     ¬ (get c (run c {} firstHitOps) ⟨0, [107], 7⟩ = pick ⟨0, [107], 7⟩ (logOf [] firstHitOps)) := by
-  rcases c with ⟨d, t, cp, lo, io, im, mk, to, ob, pk⟩
+  rcases c with ⟨d, t, cp, lo, io, im, mk, to, ob, pk, zf⟩
   simp only at hc
   subst hc
   cases d <;> cases t <;> cases lo <;> cases io <;> cases im <;> cases mk <;> cases to <;>
-    cases ob <;> cases pk <;> decide
+    cases ob <;> cases pk <;> cases zf <;> decide
 
 /-- corpus/C0x/finding-ingest-minkey-order.ops -/
 def ingestOrderOps : List Op :=
@@ -147,11 +140,11 @@ def ingestOrderOps : List Op :=
     ingest tables holding the same internal key the one with the greater smallest key wins. -/
 theorem C02_fails_asis_ingestorder (c : Cfg) (hc : c.ingestOrder = .minKeyDesc ∧ c.tieRule = .lt) :
     ¬ (get c (run c {} ingestOrderOps) ⟨0, [109], 5⟩ = pick ⟨0, [109], 5⟩ (logOf [] ingestOrderOps)) := by
-  rcases c with ⟨d, t, cp, lo, io, im, mk, to, ob, pk⟩
+  rcases c with ⟨d, t, cp, lo, io, im, mk, to, ob, pk, zf⟩
   simp only at hc
   obtain ⟨rfl, rfl⟩ := hc
   cases d <;> cases cp <;> cases lo <;> cases im <;> cases mk <;> cases to <;> cases ob <;>
-    cases pk <;> decide
+    cases pk <;> cases zf <;> decide
 
 /-- corpus/C0x/finding-drain-overlap.ops -/
 def overlapOps : List Op :=
@@ -165,10 +158,24 @@ def overlapOps : List Op :=
 theorem C02_fails_asis_overlap (c : Cfg) (hc : c.overlapRightKey = .maxKey ∧ c.tieRule = .lt) :
     ¬ (get c (run c {} overlapOps) ⟨0, [99], 5⟩ = pick ⟨0, [99], 5⟩ (logOf [] overlapOps)) ∧
     ¬ (get c (run c {} overlapOps) ⟨0, [109], 5⟩ = pick ⟨0, [109], 5⟩ (logOf [] overlapOps)) := by
-  rcases c with ⟨d, t, cp, lo, io, im, mk, to, ob, pk⟩
+  rcases c with ⟨d, t, cp, lo, io, im, mk, to, ob, pk, zf⟩
   simp only at hc
   obtain ⟨rfl, rfl⟩ := hc
   cases d <;> cases cp <;> cases lo <;> cases io <;> cases im <;> cases mk <;> cases to <;>
-    cases pk <;> decide
+    cases pk <;> cases zf <;> decide
+
+/-- corpus/C02/finding-version-zero-lost.ops -/
+def zeroVerOps : List Op := [.put ⟨0, [107], 0, [1], false⟩, .rotate, .flush]
+
+/-- `table.Search` accepts a hit only when `*maxVs < version` with `maxVs` starting at 0 (and the
+    callers skip a table whose `MaxVersionVal()` is `<= 0`): an entry written with version 0 is
+    never found again once its memtable is flushed. -/
+theorem C02_fails_asis_zerover (c : Cfg) (hc : c.zeroVersionFound = false) :
+    ¬ (get c (run c {} zeroVerOps) ⟨0, [107], 0⟩ = pick ⟨0, [107], 0⟩ (logOf [] zeroVerOps)) := by
+  rcases c with ⟨d, t, cp, lo, io, im, mk, to, ob, pk, zf⟩
+  simp only at hc
+  subst hc
+  cases d <;> cases t <;> cases cp <;> cases lo <;> cases io <;> cases im <;> cases mk <;> cases to <;>
+    cases ob <;> cases pk <;> decide
 
 end NoKV.Props.C02
